@@ -26,6 +26,10 @@ pub enum HistoryOp {
     FormatBounded(u8, u16),
     /// a typed build of a name related to the judged text
     TypedName(u8, u8),
+    /// the checksum of the judged text (or a stock one) with one entry spoilt, offered to every entry
+    /// point that converts checksums: the parser, `Checksum::try_from`, the typed value's text
+    /// conversion, the builder. All of them refuse - after having looked at the entries before it.
+    ChecksumPoison(u8, u8),
 }
 
 #[derive(Clone, Debug, Serialize, Deserialize)]
@@ -88,6 +92,70 @@ pub fn variant(s: &str, k: u8) -> String {
     }
 }
 
+/// The entries of the `checksum` qualifier written in `text` (percent-decoded), or a stock list.
+fn checksum_entries(text: &str) -> Vec<(String, String)> {
+    let lower = text.to_ascii_lowercase();
+    let value = lower.find("checksum=").map(|i| {
+        let v = &text[i + "checksum=".len()..];
+        v.split(['&', '#']).next().unwrap_or("").to_string()
+    });
+    let decoded = value.and_then(|v| crate::model::pct_decode(&v).ok()).unwrap_or_default();
+    let mut out: Vec<(String, String)> =
+        decoded.split(',').filter_map(|e| e.rsplit_once(':').map(|(a, d)| (a.to_string(), d.to_string()))).collect();
+    if out.is_empty() {
+        out = vec![("md5".into(), "0a".into()), ("sha1".into(), "00ff".into()), ("sha256".into(), "1234".into())];
+    }
+    out
+}
+
+fn poison(mut entries: Vec<(String, String)>, at: u8, how: u8) -> Vec<String> {
+    let n = entries.len();
+    // sorted the way the canonical text is, so that `at` is a position in the output
+    entries.sort_by_key(|(a, _)| crate::model::lower(a));
+    let i = match at % 4 {
+        0 => n - 1,
+        1 => 0,
+        2 => n / 2,
+        _ => (at as usize / 4) % n,
+    };
+    let mut out: Vec<String> = entries.iter().map(|(a, d)| format!("{a}:{d}")).collect();
+    let (a, d) = entries[i].clone();
+    match how % 6 {
+        0 => out[i] = format!("{a}:{d}zz"),
+        1 => out[i] = format!("{a}:{d}0"),
+        2 => out[i] = format!("{a}{d}").replace(':', ""),
+        3 => out.push(format!("{}:00", fold_like(&entries[0].0, 1))),
+        4 => out[i] = format!("{a}:not-hex"),
+        _ => out[i] = format!("{a}:{}", "é".repeat(1 + d.len() / 2)),
+    }
+    out
+}
+
+fn run_checksum_poison(judged: &str, at: u8, how: u8) {
+    use purl::qualifiers::well_known::Checksum;
+    let entries = checksum_entries(judged);
+    let bad = poison(entries, at, how);
+    let value = bad.join(",");
+    let _ = guard(|| Checksum::try_from(value.as_str()).map(|c| c.algorithms().count()));
+    let _ = guard(|| {
+        let mut c = Checksum::default();
+        for e in &bad {
+            let (a, d) = e.rsplit_once(':').unwrap_or((e.as_str(), ""));
+            c.insert_raw(a, d.to_string());
+        }
+        crate::api::SmallString::try_from(c).map(|t| t.len())
+    });
+    let escaped: String = value
+        .bytes()
+        .map(|b| if b.is_ascii_alphanumeric() || b == b':' || b == b',' || b == b'-' { (b as char).to_string() } else { format!("%{b:02X}") })
+        .collect();
+    parse_all(&format!("pkg:generic/n?checksum={escaped}"));
+    parse_all(&format!("pkg:npm/n@1?Checksum={escaped}&k=v#s"));
+    let _ = guard(|| {
+        purl::GenericPurlBuilder::new("t".to_string(), "n").with_qualifier("checksum", value.as_str()).map(|b| b.build().map(|p| p.to_string()))
+    });
+}
+
 fn parse_all(s: &str) {
     let _ = parse::<IStr>(s);
     let _ = parse::<ISmall>(s);
@@ -114,6 +182,7 @@ pub fn run_prelude(ops: &[HistoryOp], judged: &str) {
                     });
                 }
             },
+            HistoryOp::ChecksumPoison(at, how) => run_checksum_poison(judged, *at, *how),
             HistoryOp::TypedName(ty, k) => {
                 let name = judged.rsplit('/').next().unwrap_or(judged);
                 let name = name.split(['@', '?', '#']).next().unwrap_or(name);
@@ -133,6 +202,7 @@ pub fn gprelude() -> BoxedStrategy<Vec<HistoryOp>> {
         6 => any::<u8>().prop_map(HistoryOp::Variant),
         2 => (any::<u8>(), prop_oneof![0u16..40, 0u16..400]).prop_map(|(k, l)| HistoryOp::FormatBounded(k, l)),
         2 => (any::<u8>(), any::<u8>()).prop_map(|(t, k)| HistoryOp::TypedName(t, k)),
+        2 => (any::<u8>(), any::<u8>()).prop_map(|(a, h)| HistoryOp::ChecksumPoison(a, h)),
     ];
     proptest::collection::vec(op, 1..=4).boxed()
 }
